@@ -106,38 +106,47 @@ class FakeState:
         from pygaps.utilities.coolprop_utilities import CP
         if self.fail('update'):
             raise ValueError('stub backend failure in update')
-        if pair != CP.QT_INPUTS:
-            raise symx.Unsupported('FakeState models QT_INPUTS only')
+        if pair == CP.QT_INPUTS:
+            self.kind = 'QT'
+        elif pair == CP.PQ_INPUTS:
+            self.kind = 'PQ'
+        else:
+            raise symx.Unsupported('FakeState models QT_INPUTS and PQ_INPUTS only')
         self.last = (a, b)
         self.updates += 1
 
-    def _qt(self, what):
+    def _get(self, what, prop, use_q=True):
         if self.fail(what):
             raise ValueError(f'stub backend failure in {what}')
         if self.last is None:
             # arbitrary stale state: an unconstrained "previous update"
-            return self.h.real(f'stale_q_{self.tag}'), self.h.real(f'stale_T_{self.tag}')
-        return self.last
+            x, y = self.h.real(f'stale_q_{self.tag}'), self.h.real(f'stale_T_{self.tag}')
+            kind = 'QT'
+        else:
+            x, y = self.last
+            kind = getattr(self, 'kind', 'QT')
+        if kind == 'QT':
+            q, T = x, y
+            return self.h.fun(f'{prop}_{self.tag}', q, T) if use_q else self.h.fun(f'{prop}_{self.tag}', T)
+        p, q = x, y
+        if prop == 'psat':
+            return p
+        return self.h.fun(f'{prop}_pq_{self.tag}', q, p)
 
     def p(self):
-        q, T = self._qt('p')
-        return self.h.fun(f'psat_{self.tag}', T)
+        return self._get('p', 'psat', use_q=False)
 
     def rhomolar(self):
-        q, T = self._qt('rhomolar')
-        return self.h.fun(f'rhomolar_{self.tag}', q, T)
+        return self._get('rhomolar', 'rhomolar')
 
     def rhomass(self):
-        q, T = self._qt('rhomass')
-        return self.h.fun(f'rhomolar_{self.tag}', q, T) * self.molar_mass()
+        return self._get('rhomass', 'rhomolar') * self.molar_mass()
 
     def hmolar(self):
-        q, T = self._qt('hmolar')
-        return self.h.fun(f'hmolar_{self.tag}', q, T)
+        return self._get('hmolar', 'hmolar')
 
     def surface_tension(self):
-        q, T = self._qt('surface_tension')
-        return self.h.fun(f'sigma_{self.tag}', T)
+        return self._get('surface_tension', 'sigma', use_q=False)
 
     def molar_mass(self):
         if self.fail('molar_mass'):
